@@ -82,7 +82,8 @@ func subst(tpl string, tw [2]string) string {
 func runCase(c *fw.Ctx, cs caseSpec) {
 	r := fw.NewRand(c.Seed, fmt.Sprintf("c11/schema/%d", cs.Index))
 	rn := &runner{c: c, r: r, idx: cs.Index, s: genSchema(r), life: map[int]map[string][2]*result{}, plans: map[string]int{}}
-	rn.e = &env{dir: c.Dir("sql")}
+	rn.s.Params = map[string]interface{}{}
+	rn.e = &env{dir: c.Dir("sql"), params: rn.s.Params}
 	if err := rn.e.open(); err != nil {
 		c.Inconclusive("open: " + err.Error())
 		return
@@ -246,6 +247,17 @@ func (rn *runner) stageTag() string {
 func (rn *runner) files(a, b *result) map[string][]byte {
 	var sb strings.Builder
 	fmt.Fprintf(&sb, "-- C11 witness, schema %d (statements are applied through sql.Engine.Exec; in-tx = inside the open BEGIN TRANSACTION)\n", rn.idx)
+	if len(rn.s.Params) > 0 {
+		names := make([]string, 0, len(rn.s.Params))
+		for n := range rn.s.Params {
+			names = append(names, n)
+		}
+		sort.Strings(names)
+		sb.WriteString("-- named parameters passed to every statement:\n")
+		for _, n := range names {
+			fmt.Fprintf(&sb, "--   @%s = %#v\n", n, rn.s.Params[n])
+		}
+	}
 	sb.WriteString(strings.Join(rn.e.script, "\n"))
 	sb.WriteString("\n")
 	for _, r := range []*result{a, b} {
